@@ -371,7 +371,7 @@ def rule_flag(repo: Repo) -> RuleResult:
 def rule_call(repo: Repo) -> RuleResult:
     r = RuleResult("C04.call", "parse_action_call: lower-case, pad parentheses, split; name = first token inside the parentheses, parameters = the rest",
                    "each plan line denotes one action call with its arguments in order")
-    f = repo.func("exporters.numeric_trajectory_exporter::parse_action_call")
+    f = L.fn(repo, "exporters.numeric_trajectory_exporter::parse_action_call")
     p = L.prov(repo, f)
     r.site(f.qn)
     ctor = [c for c in L.calls_in(f.node) if callee_name(c) == "ActionCall"]
